@@ -67,7 +67,7 @@ def main(tier):
         run.extra["generated"] = "models, keytabs, queries = " + (g.tags("COUNTS") or ["?"])[0]
         # ---- the specification's writer against MIT Kerberos' reader (validates KeytabFormat, the oracle of the image lines)
         import mitcross
-        mk = mitcross.mit_keytab_cross(wd, 300 if not run.thorough else 2000)
+        mk = mitcross.spec_stage(run, mitcross.mit_keytab_cross, wd, 300 if not run.thorough else 2000)
         run.extra["keytabformat_vs_mit_reader"] = {k: v for k, v in mk.items() if k != "first"}
         if mk.get("disagreements"):
             vlib.spec_validation_problem(run, "KeytabFormat and MIT's keytab reader disagree on %d files; first: %s" % (mk["disagreements"], mk["first"]))
